@@ -670,7 +670,7 @@ class PassWorld(World):
                 raise Unsupported("entry method " + m)
             if isinstance(recv, Sink):
                 args = [self.eval(a, env, uses) for a in e["args"]]
-                if m in ("iter", "into_iter", "drain") and (not args or m == "drain"):
+                if m in ("iter", "into_iter", "drain", "iter_mut") and (not args or m == "drain"):
                     return Iter(list(recv.items))
                 if m == "len" and not args:
                     return len(recv.items)
